@@ -168,7 +168,7 @@ def l1_random(ctx, n_expr, dis):
     cases = []
     for k in range(n_expr):
         sigs = make_sigs(rng, rng.randint(2, 4), maxw=rng.choice([3, 5, 9]))
-        g = ExprGen(rng, sigs, lowered=True, tame=(k % 3 == 0))
+        g = ExprGen(rng, sigs, lowered=True, tame=(k % 3 == 0), neg_shift_ok=True)
         e = g.gen(rng.randint(1, 3))
         used = used_signals(e)
         envs, exh = expr_envs(rng, sigs, used, max_exh_bits=8 if ctx.tier == "quick" else 11)
@@ -524,7 +524,63 @@ def core_builders(tier):
     add("wishbone.Timeout/8", lambda: wishbone.Timeout(wishbone.Interface(), 8))
     add("wishbone.DownConverter/32->8", lambda: wishbone.DownConverter(
         wishbone.Interface(data_width=32, adr_width=30), wishbone.Interface(data_width=8, adr_width=32)))
-    add("wishbone.UpConverter? n/a", None)
+    # ---- wider corpus (bus fabric, CSR, packets, AXI-Lite, UART) -------------------------------------------
+    from litex.soc.interconnect import packet, csr, csr_bus
+    from litex.soc.interconnect.axi import axi_lite
+    from litex.soc.cores.uart import RS232PHYRX, RS232ClkPhaseAccum, Stream2Wishbone
+    from litex.soc.cores.code_8b10b import Decoder as Dec8b10b
+    from litex.soc.cores.prbs import PRBSTX, PRBSRX
+    add("stream.Shifter", lambda: stream.Shifter(16))
+    add("stream.Delay/3", lambda: stream.Delay(L8, 3))
+    add("stream.StrideConverter", lambda: stream.StrideConverter([("a", 4), ("b", 4)], [("a", 8), ("b", 8)]))
+    add("stream.Monitor", lambda: stream.Monitor(stream.Endpoint(L8), count_width=8, with_tokens=True, with_overflows=True))
+    add("stream.Pipeline(valid,ready)", lambda: stream.Pipeline(stream.PipeValid(L8), stream.PipeReady(L8)))
+    add("wishbone.InterconnectShared/2x2", lambda: wishbone.InterconnectShared(
+        [wishbone.Interface() for _ in range(2)],
+        [((lambda k: (lambda a: a[8:] == k))(k), wishbone.Interface()) for k in range(2)], timeout_cycles=16))
+    add("wishbone.Crossbar/2x2", lambda: wishbone.Crossbar(
+        [wishbone.Interface() for _ in range(2)],
+        [((lambda k: (lambda a: a[8:] == k))(k), wishbone.Interface()) for k in range(2)]))
+    add("wishbone.UpConverter/8->32", lambda: wishbone.UpConverter(
+        wishbone.Interface(data_width=8, adr_width=32), wishbone.Interface(data_width=32, adr_width=30)))
+    add("wishbone.Wishbone2CSR", lambda: wishbone.Wishbone2CSR(
+        bus_wishbone=wishbone.Interface(), bus_csr=csr_bus.Interface(address_width=14, data_width=32)))
+    add("wishbone.Remapper", lambda: wishbone.Remapper(wishbone.Interface(), wishbone.Interface(), origin=0x1000, size=0x1000))
+    add("packet.Arbiter/2", lambda: packet.Arbiter([stream.Endpoint(L8) for _ in range(2)], stream.Endpoint(L8)))
+    add("packet.Dispatcher/2", lambda: packet.Dispatcher(stream.Endpoint(L8), [stream.Endpoint(L8) for _ in range(2)]))
+    hdr = lambda: packet.Header({"a": packet.HeaderField(0, 0, 8), "b": packet.HeaderField(1, 0, 16)}, 3, swap_field_bytes=True)
+    add("packet.Packetizer/8", lambda: packet.Packetizer(
+        stream.EndpointDescription(L8, [("a", 8), ("b", 16)]), stream.EndpointDescription(L8), hdr()))
+    add("packet.Depacketizer/8", lambda: packet.Depacketizer(
+        stream.EndpointDescription(L8), stream.EndpointDescription(L8, [("a", 8), ("b", 16)]), hdr()))
+    hdr4 = lambda: packet.Header({"a": packet.HeaderField(0, 0, 8), "b": packet.HeaderField(1, 0, 16), "c": packet.HeaderField(3, 0, 8)}, 4)
+    add("packet.Packetizer/32", lambda: packet.Packetizer(
+        stream.EndpointDescription([("data", 32)], [("a", 8), ("b", 16), ("c", 8)]), stream.EndpointDescription([("data", 32)]), hdr4()))
+    add("axi_lite.AXILiteTimeout", lambda: axi_lite.AXILiteTimeout(axi_lite.AXILiteInterface(), 8))
+    add("axi_lite.AXILiteArbiter/2", lambda: axi_lite.AXILiteArbiter(
+        [axi_lite.AXILiteInterface() for _ in range(2)], axi_lite.AXILiteInterface()))
+    add("axi_lite.AXILiteDecoder/2", lambda: axi_lite.AXILiteDecoder(
+        axi_lite.AXILiteInterface(), [((lambda k: (lambda a: a[8:] == k))(k), axi_lite.AXILiteInterface()) for k in range(2)]))
+    add("axi_lite.AXILiteDownConverter/64->32", lambda: axi_lite.AXILiteDownConverter(
+        axi_lite.AXILiteInterface(data_width=64), axi_lite.AXILiteInterface(data_width=32)))
+    add("axi_lite.AXILiteUpConverter/32->64", lambda: axi_lite.AXILiteUpConverter(
+        axi_lite.AXILiteInterface(data_width=32), axi_lite.AXILiteInterface(data_width=64)))
+    add("RS232ClkPhaseAccum", lambda: RS232ClkPhaseAccum(Signal(32, reset=1 << 28)))
+    add("RS232PHYRX", lambda: RS232PHYRX(Record([("tx", 1), ("rx", 1)]), Signal(32, reset=1 << 29)))
+    add("Stream2Wishbone", lambda: Stream2Wishbone(clk_freq=1000))
+    add("PRBSTX", lambda: PRBSTX(8))
+    add("PRBSRX", lambda: PRBSRX(8))
+    def bank(dw, ordering):
+        return csr_bus.CSRBank([
+            csr.CSRStorage(16, name="st", reset=0x1234),
+            csr.CSRStorage(name="ctl", fields=[csr.CSRField("en", size=1), csr.CSRField("mode", size=3, reset=2),
+                                              csr.CSRField("go", size=1, pulse=True)]),
+            csr.CSRStatus(name="sta", fields=[csr.CSRField("a", size=4), csr.CSRField("b", size=2)]),
+            csr.CSRStorage(40, name="wide", atomic_write=True),
+            csr.CSR(8, name="raw")],
+            address=0, bus=csr_bus.Interface(data_width=dw, address_width=14), ordering=ordering)
+    add("csr_bus.CSRBank/8/big", lambda: bank(8, "big"))
+    add("csr_bus.CSRBank/32/little", lambda: bank(32, "little"))
     if tier != "quick":
         add("stream._UpConverter/8->64", lambda: stream._UpConverter(8, 64, 8, False))
         add("stream.Gearbox/32->20", lambda: stream.Gearbox(32, 20))
@@ -618,6 +674,52 @@ def l2_cores(ctx, cycles, dis):
                    "a VIOLATION.  Regenerate with C01_WRITE_SITES=1 ./check C01 after reviewing the new sites.",
                    "sites": found}, open(SITES_FILE, "w"), indent=1, sort_keys=True)
         ctx.log("wrote " + SITES_FILE)
+
+
+# ----------------------------------------------------------------------------------------------------------
+# Lowering index arithmetic: Lean lowerCat / lowerRep vs the real _lower_slice_cat / _lower_slice_replicate
+# ----------------------------------------------------------------------------------------------------------
+
+def lowering_arith(ctx, n_cases, dis):
+    from litex.gen.fhdl.verilog import _lower_slice_cat, _lower_slice_replicate
+    from migen.fhdl.structure import Cat, Replicate
+    rng = ctx.rng
+    lines, metas = [], []
+    for k in range(n_cases):
+        sigs = make_sigs(rng, rng.randint(2, 4), maxw=rng.choice([2, 4, 7]))
+        g = ExprGen(rng, sigs, lowered=True, tame=True)
+
+        def nest(d):
+            if d <= 0 or rng.random() < 0.3:
+                return g.word(1)
+            if rng.random() < 0.6:
+                return Cat(*[nest(d - 1) for _ in range(rng.randint(1, 4))])
+            return Replicate(nest(d - 1), rng.randint(1, 4))
+        kind = rng.choice(["cat", "rep"])
+        node = Cat(*[nest(2) for _ in range(rng.randint(1, 4))]) if kind == "cat" else Replicate(nest(2), rng.randint(1, 4))
+        n = len(node)
+        if n == 0 or n > 200:
+            continue
+        start = rng.randrange(0, n)
+        length = rng.randint(1, n - start)
+        ids = SigIds()
+        for s in sigs:
+            ids.get(s)
+        fn = _lower_slice_cat if kind == "cat" else _lower_slice_replicate
+        rnode, rstart = fn(node, start, length)
+        lines.append("low %s %d %d ; %s" % (kind, start, length, " ".join(ser_expr(node, ids))))
+        metas.append((kind, start, length, "%d %s" % (rstart, " ".join(ser_expr(rnode, ids))), rnode is not node))
+    moved = 0
+    for (kind, start, length, want, changed), ans in zip(metas, ctx.lean.call_batch(lines)):
+        moved += 1 if changed else 0
+        if " ".join(ans.split()) != want:
+            dis.append(Dis("lowering-arith", fn="_lower_slice_" + ("cat" if kind == "cat" else "replicate"),
+                           start=start, length=length, real=want[:200], lean=ans[:200]))
+            if len(dis) > 5:
+                break
+    ctx.cov.add_cases("_lower_slice_cat/_replicate index arithmetic vs Lean lowerCat/lowerRep", len(metas), moved,
+                      exhaustive=False)
+    ctx.log("lowering arithmetic: %d cases (%d descended into an element)" % (len(metas), moved))
 
 
 # ----------------------------------------------------------------------------------------------------------
@@ -747,15 +849,16 @@ def correspond(ctx):
     dis = []
     quick = ctx.tier == "quick"
     corpus_run(ctx, dis)
-    l1_random(ctx, 600 if quick else 6000, dis)
+    lowering_arith(ctx, 3000 if quick else 30000, dis)
+    l1_random(ctx, 1500 if quick else 12000, dis)
     if len(dis) <= 10:
-        l2_random(ctx, 40 if quick else 400, 40 if quick else 120, dis)
+        l2_random(ctx, 90 if quick else 900, 40 if quick else 120, dis)
     if len(dis) <= 10:
-        l2_cores(ctx, 200 if quick else 2000, dis)
+        l2_cores(ctx, 250 if quick else 2500, dis)
     # independent golden reading (also the failing-input oracle): must accept the unchanged tree
     t0 = time.time()
-    n1, bad1 = oracle_expressions(ctx.rng, 300 if quick else 3000)
-    n2, bad2 = oracle_modules(ctx.rng, 15 if quick else 150, 40)
+    n1, bad1 = oracle_expressions(ctx.rng, 1000 if quick else 10000)
+    n2, bad2 = oracle_modules(ctx.rng, 40 if quick else 400, 40)
     ctx.cov.add_cases("independent golden reading (python) of the real text vs real Evaluator, safe domain",
                       n1 + n2, n1 + n2, exhaustive=False)
     ctx.log("golden reading: %d expression cases, %d module cycles, %.1fs" % (n1, n2, time.time() - t0))
